@@ -17,14 +17,14 @@
   when `tol > 0`) at `Rat`.
 
   Preconditions of the C++ that no code checks (theorems carry them, harness respects them):
-  column indices of a sparse row are pairwise different (for `ia == ib` the C++ adds
-  `fa*fb` to `*end(row)`, the first cell of the *next* row or one past the array);
-  `perm/invp` is a permutation of `1..dim`.
+  column indices in `1..dim`; `perm/invp` is a permutation of `1..dim`.  (A column index may
+  occur several times in one sparse row: the values add up.)
 
   Core Lean only.
 -/
 import Gama.Scalar
 import Gama.Model.RCM
+import Gama.Gen.EnvelopeConst
 namespace Gama
 
 structure Env (K : Type) where
@@ -95,16 +95,21 @@ def profileOf (mn : Array Nat) (dim : Nat) : Array Nat :=
     (Array.replicate (dim + 2) 0, 0)).1
 
 /-- contribution of one sparse row, given as `(c[i], a[i])` = (new column number, value):
-    `diag_[ia-1] += fa*fa;  *(end(row) - (row-col)) += fa*fb` for every later entry -/
+    `diag_[ia-1] += fa*fa`, and for every later entry `(ib, fb)` of the row either
+    `diag_[ia-1] += 2*fa*fb` when `ia == ib` (index repeated in the row: `(fa+fb)^2`; since
+    /repo commit 0a3ec43 — before that the C++ wrote to `*end(row)`, finding F17) or
+    `*(end(row) - (row-col)) += fa*fb` with `row = max(ia,ib)`, `col = min(ia,ib)`. -/
 def accRow (xenv : Array Nat) : List (Nat × K) → Array K × Array K → Array K × Array K
   | [], p => p
   | (ia, fa) :: rest, (diag, env) =>
     let diag := diag.modify (ia - 1) (· + fa * fa)
-    let env := rest.foldl (fun env (q : Nat × K) =>
-        let row := max ia q.1
-        let col := min ia q.1
-        env.modify (xenv.getD (row + 1) 0 - (row - col)) (· + fa * q.2)) env
-    accRow xenv rest (diag, env)
+    let p := rest.foldl (fun (p : Array K × Array K) (q : Nat × K) =>
+        if ia == q.1 then (p.1.modify (ia - 1) (· + Scalar.ofNat 2 * fa * q.2), p.2)
+        else
+          let row := max ia q.1
+          let col := min ia q.1
+          (p.1, p.2.modify (xenv.getD (row + 1) 0 - (row - col)) (· + fa * q.2))) (diag, env)
+    accRow xenv rest p
 
 /-- `Envelope(sm, graph, ordering)` -/
 def ofSparse (A : SMat K) (g : Adj) (o : SOrdering) : Env K :=
@@ -169,9 +174,16 @@ def cholRow (tol : K) (E : Env K) (row : Nat) : Env K :=
   else
     { E with env := env, diag := E.diag.setIfInBounds (row - 1) d }
 
-/-- `cholDec(tol)` – note that the loop starts at row 2: the first pivot is never tested -/
-def cholDec (E : Env K) (tol : K) : Env K :=
-  (List.range' 2 (E.dim - 1)).foldl (cholRow (effTol tol)) { E with defect := 0 }
+/-- `cholDec(tol)` with the factorisation loop `for (row=first; row<=dim_; row++)`.
+    Row 1 has an empty profile: its pass is only the tolerance test of the first pivot.
+    (Up to /repo commit a4c88cc the loop started at row 2 and never tested the first pivot;
+    see finding F16.) -/
+def cholDecFrom (first : Nat) (E : Env K) (tol : K) : Env K :=
+  (List.range' first (E.dim + 1 - first)).foldl (cholRow (effTol tol)) { E with defect := 0 }
+
+/-- `cholDec(tol)` ; the first row of the loop is read from the source on every run
+    (`Gama/Gen/EnvelopeConst.lean`, regenerated by tools/props/c16.py) -/
+def cholDec (E : Env K) (tol : K) : Env K := cholDecFrom Gen.cholFirstRow E tol
 
 /-! ### `inverse(choldec)` -/
 
